@@ -495,9 +495,22 @@ func (db *Backend) ListBucketVersions(
 		iter.Seek(page.KeyMarker)
 	}
 
-	var truncated = false
-	var first = true
 	var cnt int64 = 0
+
+	// full is set once MaxKeys versions have been collected; the next version
+	// or not-yet-reported common prefix that turns up is then not added but
+	// recorded as the place where the next page starts.
+	var full = false
+	var seenPrefixes = map[string]bool{}
+
+	// truncateAt marks the result as truncated; the markers name the first
+	// version that was not returned, which is where ListBucketVersions starts
+	// when they are passed back as key-marker and version-id-marker.
+	truncateAt := func(key string, versionID gofakes3.VersionID) {
+		result.IsTruncated = true
+		result.NextKeyMarker = key
+		result.NextVersionIDMarker = versionID
+	}
 
 	// FIXME: The S3 docs have this to say on the topic of result ordering:
 	//   "The following request returns objects in the order they were stored,
@@ -517,24 +530,35 @@ func (db *Backend) ListBucketVersions(
 			continue
 		}
 
+		versions := object.Iterator()
+
 		if match.CommonPrefix {
+			if full {
+				if !seenPrefixes[match.MatchedPart] && versions.Next() {
+					truncateAt(object.name, versions.Value().versionID)
+					return result, nil
+				}
+				continue
+			}
 			result.AddPrefix(match.MatchedPart)
+			seenPrefixes[match.MatchedPart] = true
 			continue
 		}
 
-		versions := iter.Value().(*bucketObject).Iterator()
-		if first {
-			if page.VersionIDMarker != "" {
-				if !versions.Seek(page.VersionIDMarker) {
-					// FIXME: log
-					return result, gofakes3.ErrInternal
-				}
+		// The version marker only applies to the key it was issued for:
+		if page.VersionIDMarker != "" && object.name == page.KeyMarker {
+			if !versions.Seek(page.VersionIDMarker) {
+				continue
 			}
-			first = false
 		}
 
 		for versions.Next() {
 			version := versions.Value()
+
+			if full {
+				truncateAt(object.name, version.versionID)
+				return result, nil
+			}
 
 			if version.deleteMarker {
 				marker := &gofakes3.DeleteMarker{
@@ -563,14 +587,10 @@ func (db *Backend) ListBucketVersions(
 
 			cnt++
 			if page.MaxKeys > 0 && cnt >= page.MaxKeys {
-				truncated = versions.Next()
-				goto done
+				full = true
 			}
 		}
 	}
-
-done:
-	result.IsTruncated = truncated || iter.Next()
 
 	return result, nil
 }
